@@ -195,6 +195,10 @@ class Normaliser:
         """Canonical body of a private one-input helper (first param = INPUT)."""
         params = [a.arg for a in f.args.posonlyargs + f.args.args]
         mapping = {params[0]: ast.Name(id="INPUT", ctx=ast.Load())} if params else {}
+        sr = astu.simple_return(f)
+        if sr is not None:
+            # locals expanded: `r = E; return r` is `return E`
+            return "return " + ast.unparse(_Rename(mapping).visit(copy.deepcopy(sr)))
         stmts = [s for s in f.body if not (isinstance(s, ast.Expr) and isinstance(s.value, ast.Constant))]
         return "; ".join(ast.unparse(_Rename(mapping).visit(copy.deepcopy(s))) for s in stmts)
 
@@ -244,8 +248,13 @@ class Normaliser:
     def _return_form(self, f, s, inner, amap_h) -> Optional[str]:
         """Canonical form of one ``return PipelineStep(<callable>, …)`` of a helper."""
         v_ = s.value
+        keep_ = frozenset(a.arg for a in f.args.posonlyargs + f.args.args + f.args.kwonlyargs)
         if not (isinstance(v_, ast.Call) and ast.unparse(v_.func) == "PipelineStep" and v_.args):
-            v_ = astu.expand_locals(v_, amap_h)
+            # a local holding the step; parameters that are re-bound (defaults filled in) stay parameters
+            amap_nb = {k: v for k, v in amap_h.items() if k not in keep_}
+            v_ = astu.expand_locals(v_, amap_nb)
+            if isinstance(v_, ast.Call) and ast.unparse(v_.func) == "PipelineStep" and v_.args:
+                v_ = ast.Call(func=v_.func, args=[astu.expand_locals(v_.args[0], amap_nb)] + list(v_.args[1:]), keywords=v_.keywords)
             if not (isinstance(v_, ast.Call) and ast.unparse(v_.func) == "PipelineStep" and v_.args):
                 return None
         a0 = v_.args[0]
@@ -371,7 +380,13 @@ def rule_HO(run: Run) -> RuleResult:
         raise AnalysisError(f"only {n_red} helper steps reduced (61 confirmed by hand)")
     # PartialApplication.lift / partial(): helper parameters are positional/keyword arguments of the partial
     pf = nz.funcs.get("partial")
-    ok = pf is not None and [ast.unparse(s) for s in pf.body if isinstance(s, ast.Return)] == ["return PartialApplication(__func, *args, **kwargs)"]
+    ok = pf is not None
+    if ok:
+        from .interp import analyse_function
+        pps_ = analyse_function(Ctx(run.repo), nz.mod, pf)
+        fp_ = [a.arg for a in pf.args.posonlyargs + pf.args.args][0]
+        ok = bool(pps_) and all(p.status == "ret" and isinstance(p.ret, New) and p.ret.cls.name == "PartialApplication" and p.ret.attrs.get("func") is not None
+                                and fp_ in p.ret.attrs["func"].key() and "*args" in p.ret.key() and "**kwargs" in p.ret.key() for p in pps_)
     res.add("labrea.functions.partial:is PartialApplication(func, *args, **kwargs)", ok, f, pf.lineno if pf else 0, "", nec)
     return res
 
@@ -407,8 +422,9 @@ def rule_HF(run: Run) -> RuleResult:
             passed = False
             amap_f = astu.single_assign_map(fn)
             for r in astu.walk_no_nested(fn):
-                if isinstance(r, ast.Return) and isinstance(r.value, ast.Call) and r.value.args:
-                    a0_ = astu.expand_locals(r.value.args[0], {k: v for k, v in amap_f.items() if k != p_})
+                rv_ = astu.expand_locals(r.value, {k: v for k, v in amap_f.items() if k != p_}) if isinstance(r, ast.Return) and r.value is not None else None
+                if isinstance(rv_, ast.Call) and rv_.args:
+                    a0_ = astu.expand_locals(rv_.args[0], {k: v for k, v in amap_f.items() if k != p_})
                     for c in [a0_] + list(astu.calls_in(a0_)):
                         if isinstance(c, ast.Call):
                             for a in list(c.args) + [k.value for k in c.keywords]:
@@ -506,12 +522,10 @@ def rule_PI(run: Run) -> RuleResult:
             st = {e.args[1].key(): e.target.key() for e in p.events if e.kind == "store" and len(e.args) == 2 and e.args[0].key() == "self" and e.target is not None}
             is_none = cond_pol(p.conds, f"cmp:Is({rest_p},Const(None))")
             empty = cond_pol(p.conds, f"attr:empty({rest_p})")
-            want_rest = "Const(None)" if (is_none is True or empty is True) else rest_p
-            if st.get("Const('tail')") is None or (tail_p not in st["Const('tail')"] and st["Const('tail')"] != "New(PipelineStep;_name=Const(None),step=New(Value;value=Fn(_identity;)))") \
-                    or st.get("Const('rest')") != want_rest:
-                # (a missing tail is replaced by the identity step; an empty rest is normalised to None)
-                if not (st.get("Const('rest')") == want_rest and st.get("Const('tail')") is not None):
-                    ok = False
+            # an empty rest is normalised to None (storing `rest` on the path where it is None is the same thing)
+            want_rest = {"Const(None)"} | ({rest_p} if is_none is True else set()) if (is_none is True or empty is True) else {rest_p}
+            if st.get("Const('tail')") is None or st.get("Const('rest')") not in want_rest:
+                ok = False
     res.add("labrea.pipeline.Pipeline.__init__:stores tail and rest, normalising an empty rest to None", ok, f, init.lineno if init else 0, "", nec)
     em = pl.methods.get("empty")
     ok = em is not None
